@@ -4,6 +4,7 @@
 package main
 
 import (
+	"time"
 	"bufio"
 	"encoding/json"
 	"flag"
@@ -36,6 +37,10 @@ type Engine struct {
 	// (input + observed) and a JSON-serialisable observation.
 	Run func(in interface{}) (coq string, obs interface{}, stats map[string]int)
 }
+
+// caseTimeout: how long one case may take before the implementation counts as hung on it (the slowest engines need a few
+// seconds per case for real timers)
+var caseTimeout = 90 * time.Second
 
 var engines = map[string]*Engine{}
 var subcommands = map[string]func([]string) int{}
@@ -164,8 +169,24 @@ func runEngine(name string, e *Engine, seed int64, n int, out, replay, corpus st
 		go func(i int, in interface{}) {
 			defer wg.Done()
 			defer func() { <-sem }()
-			t, o, st := e.Run(in)
-			results[i] = result{t, o, st}
+			// watchdog: an implementation that does not come back on this input (a cycle that never ends, a blocked send)
+			// is reported with the input instead of hanging the whole check
+			done := make(chan result, 1)
+			go func() {
+				t, o, st := e.Run(in)
+				done <- result{t, o, st}
+			}()
+			select {
+			case r := <-done:
+				results[i] = r
+			case <-time.After(caseTimeout):
+				inputs[i].Index = i
+				b, _ := json.Marshal(map[string]interface{}{"engine": name, "index": i, "seed": inputs[i].Seed, "input": inputs[i].Input, "nontrivial": true,
+					"observed": fmt.Sprintf("the implementation did not return within %v on this input", caseTimeout)})
+				_ = ioutil.WriteFile(filepath.Join(out, "hung.json"), b, 0o644)
+				fmt.Fprintf(os.Stderr, "engine %s: case %d did not return within %v\n", name, i, caseTimeout)
+				os.Exit(4)
+			}
 		}(i, in)
 		if par == 1 {
 			wg.Wait()
